@@ -182,6 +182,7 @@ package shell
 //@ ensures len(result) >= 1
 //@ ensures len(data) <= maxLen ==> len(result) == 1 && result[0] == data
 //@ ensures len(data) > maxLen && maxLen >= 2 && (data[0] == MsgStdin || data[0] == MsgStdout || data[0] == MsgStderr) ==> c07split == len(data) - 1 && forall k in 0..len(result): 2 <= len(result[k]) && len(result[k]) <= maxLen
+//@ loop 0 invariant (offset > 0 ==> len(parts) >= 1) && (base(parts) == 0 || fresh(parts)) && preserved(parts)
 
 // ---- C03 (responder, remote shell): a zero initiator key is refused; one fresh pair; the key is derived
 // for (request id received, initiator public, own public, responder), stored in the stream entry, and the
